@@ -7,6 +7,7 @@ package vmc
 
 import (
 	"fmt"
+	"os"
 	"runtime"
 	"sort"
 	"strings"
@@ -234,7 +235,10 @@ func (s *Sched) pick() *Thread {
 			return nil
 		}
 		n := len(en)
-		if s.opt.Adversarial && haveTimer {
+		// adversarial clock: firing the next timer while threads are runnable is a choice - unless
+		// the timer lies beyond the horizon of the scenario (a 20-minute housekeeping ticker in a
+		// 10-minute scenario): jumping there would only end the execution unfinished
+		if nt := s.nextTimer(); s.opt.Adversarial && nt != nil && (s.opt.MaxTime == 0 || time.Duration(nt.when) <= s.opt.MaxTime) {
 			n++
 		}
 		if n > 1 && s.cacheCut(en) {
@@ -443,6 +447,17 @@ func LibThreadsDone() bool {
 	return true
 }
 
+func lastOp(s *Sched) string {
+	if t := s.cur; t != nil {
+		return fmt.Sprintf("T%d(%s) after %s", t.ID, t.Name, t.what)
+	}
+	return "?"
+}
+
+// InExecution: a thread of a running execution is executing (not package initialisation, not
+// harness code between executions, not the teardown).
+func InExecution() bool { return S != nil && S.cur != nil && !S.aborting }
+
 // LibThreadsAliveNow names the library threads that have not ended yet.
 func LibThreadsAliveNow() []string {
 	var out []string
@@ -593,6 +608,29 @@ func RunOnce(prefix []int, opt Options, body func()) *Result {
 	if opt.MaxSteps == 0 {
 		s.opt.MaxSteps = 200000
 	}
+	// watchdog: an execution takes milliseconds; one that makes no step for minutes sits in a real
+	// blocking call outside the scheduler (a transport or clock the shims do not own)
+	wdDone := make(chan struct{})
+	defer close(wdDone)
+	go func() {
+		last, idle := -1, 0
+		for {
+			select {
+			case <-wdDone:
+				return
+			case <-time.After(20 * time.Second):
+			}
+			if s.steps == last {
+				idle++
+			} else {
+				last, idle = s.steps, 0
+			}
+			if idle >= 9 {
+				fmt.Fprintf(os.Stderr, "MACHINERY-ERROR: an execution made no scheduler step for 3 minutes: the code under test blocks in a real call outside the controlled scheduler (last operation: %s)\n", lastOp(s))
+				os.Exit(2)
+			}
+		}
+	}()
 	s.spawn("main", true, body)
 	t0 := s.threads[0]
 	s.cur = t0
